@@ -55,12 +55,13 @@ fn random_source(r: &mut Rng) -> String {
             // mostly well-formed
             fn e(r: &mut Rng, d: usize) -> String {
                 if d == 0 || r.below(3) == 0 {
-                    return r.pick(&["1", "2.5", "a", "x", "true", "\"s\"", "0x10", "1e-3", "()"]).to_string();
+                    return r.pick(&["1", "2.5", "a", "x", "true", "\"s\"", "0x10", "1e-3", "()", "A", "X", "True", "FALSE", "Math::PI", "\"{a}\""]).to_string();
                 }
                 match r.below(7) {
                     0 | 1 | 2 => format!("{} {} {}", e(r, d - 1), r.pick(&["+", "-", "*", "/", "%", "^", "==", "<", "&&", "||", ">="]), e(r, d - 1)),
                     3 => format!("({})", e(r, d - 1)),
-                    4 => format!("{}({}, {})", r.pick(&["f", "max", "len", "math::pow", "if"]), e(r, d - 1), e(r, d - 1)),
+                    // (also names that differ from a builtin only in their case or by a look-alike letter: names are kept as written)
+                    4 => format!("{}({}, {})", r.pick(&["f", "max", "len", "math::pow", "if", "MAX", "Round", "Math::Abs", "str::To_Uppercase", "LEN", "If", "mаx", "ｍax", "TYPEOF", "Str::From"]), e(r, d - 1), e(r, d - 1)),
                     5 => format!("{} {} {}", r.pick(&["a", "x", "y"]), r.pick(&["=", "+=", "*="]), e(r, d - 1)),
                     _ => format!("{}; {}", e(r, d - 1), e(r, d - 1)),
                 }
